@@ -243,7 +243,7 @@ func meshHash3(m *model3d.Mesh) string {
 
 // startMesh3 picks how the history begins.
 func startMesh3(src *choice.Source, h *hist3) {
-	kind := src.Intn(9) // (recorded tapes hold reduced values, so the range may grow)
+	kind := src.Intn(10) // (recorded tapes hold reduced values, so the range may grow)
 	switch kind {
 	case 0:
 		h.real = model3d.NewMesh()
@@ -323,6 +323,32 @@ func startMesh3(src *choice.Source, h *hist3) {
 			h.real = hm.MeshBidir()
 		}
 		h.log("HeightMap.Mesh")
+	case 9: // every entry point of the marching-cubes vertex search, at its edge cases
+		var solid model3d.Solid = &model3d.Sphere{Center: model3d.XYZ(0.01, 0.02, 0.03), Radius: 0.4 + 0.2*src.Float()}
+		delta := 0.3
+		if src.Chance(1, 2) {
+			// faces exactly on lattice planes: searched vertices can collapse onto corners
+			solid = &model3d.Rect{MinVal: model3d.XYZ(1, 1, 1), MaxVal: model3d.XYZ(2, 2, 2+float64(src.Intn(2)))}
+			delta = 1
+		}
+		iters := []int{0, 1, 2, 5, 53, 60, 80}[src.Intn(7)]
+		switch src.Intn(5) {
+		case 0:
+			h.real, _ = model3d.MarchingCubesInterior(solid, delta, iters)
+			h.log("MarchingCubesInterior(iters=%d)", iters)
+		case 1:
+			h.real = model3d.MarchingCubesSearch(solid, delta, iters)
+			h.log("MarchingCubesSearch(iters=%d)", iters)
+		case 2:
+			h.real = model3d.MarchingCubesSearchFilter(solid, func(*model3d.Rect) bool { return true }, delta, iters)
+			h.log("MarchingCubesSearchFilter(iters=%d)", iters)
+		case 3:
+			h.real = model3d.MarchingCubesC2F(solid, 2*delta, delta, 0, iters)
+			h.log("MarchingCubesC2F(iters=%d)", iters)
+		default:
+			h.real = model3d.MarchingCubesConj(solid, delta, iters, &model3d.Translate{Offset: model3d.XYZ(0.1, 0, 0)})
+			h.log("MarchingCubesConj(iters=%d)", iters)
+		}
 	}
 	h.list = sortedFaces(h.real.TriangleSlice())
 	if kind >= 2 {
